@@ -387,6 +387,12 @@ func runC18(c *Ctx) {
 		}
 	}
 	r.Check("C18.not-exist", "NewReader/maps a missing file to ErrObjectNotExist", gd.Pos(rd.Pos()), okMap, "")
+	c18Writer(c, gd, "C18.write-truncates")
+}
+
+// c18Writer: FSObject.NewWriter replaces the object's content and creates parent directories.
+func c18Writer(c *Ctx, gd *Module, rule string) {
+	r := c.R
 	wr := gd.Func("internal/storage", "FSObject.NewWriter")
 	okTrunc := false
 	for _, cs := range callsIn(wr, "os.Create") {
@@ -395,10 +401,10 @@ func runC18(c *Ctx) {
 	for _, cs := range callsIn(wr, "os.OpenFile") {
 		okTrunc = describe(cs.Common().Args[0]) == "param:o.filename" && gd.openFlagsHave(cs.Common(), "O_CREATE", "O_TRUNC", "O_WRONLY") || gd.openFlagsHave(cs.Common(), "O_CREATE", "O_TRUNC", "O_RDWR")
 	}
-	r.Check("C18.write-truncates", "godev/internal/storage.(*FSObject).NewWriter", gd.Pos(wr.Pos()), okTrunc, "writing an object must replace its content: os.Create or OpenFile with O_CREATE|O_TRUNC (without O_TRUNC a shorter overwrite keeps a stale tail)")
+	r.Check(rule, "godev/internal/storage.(*FSObject).NewWriter", gd.Pos(wr.Pos()), okTrunc, "writing an object must replace its content: os.Create or OpenFile with O_CREATE|O_TRUNC (without O_TRUNC a shorter overwrite keeps a stale tail)")
 	okMk := false
 	for _, cs := range callsIn(wr, "os.MkdirAll") {
 		okMk = describe(cs.Common().Args[0]) == "path/filepath.Dir(param:o.filename)"
 	}
-	r.Check("C18.write-truncates", "NewWriter/creates parent directories", gd.Pos(wr.Pos()), okMk, "nested object names need their directories")
+	r.Check(rule, "NewWriter/creates parent directories", gd.Pos(wr.Pos()), okMk, "nested object names need their directories")
 }
